@@ -209,11 +209,23 @@ def run(ctx):
             fwd = [(bb, t) for bb, t in kb.calls() if (t["call"].get("trait") or "") == sw.DE + "Visitor" and t["call"]["name"] == m]
             good = bool(stores) and len(fwd) == 1
             if good:
-                sbb, j, s = stores[0]
-                val_roots = tr.root_locals(s["r"]["use"]) if "use" in s["r"] else set()
-                somes = [src for src in (tr.sources(s["r"]["use"]) if "use" in s["r"] else []) if src[0] == "agg"]
-                is_some = any(kb.blocks[a[1]]["s"][a[2]]["r"].get("variant") == "Some" for a in somes)
-                good = 3 in val_roots and is_some and cfg.dominates(sbb, fwd[0][0])
+                # a store through the visitor's cell field whose value is built from the visited key (`Some(Cow(..value..))`, or a
+                # private key-holder's variant carrying it), before the forward
+                good = False
+                for sbb, j, s in stores:
+                    val_roots = Tracer(kb, through_agg=True, through_calls=True).root_locals(s["r"]["use"]) if "use" in s["r"] else set()
+                    if 3 in val_roots and cfg.dominates(sbb, fwd[0][0]):
+                        good = True
+            if not good and len(fwd) == 1:
+                # ... or a method of a private key-holder type called on the cell with the visited key (`self.key.set_copied(value)`)
+                trc = Tracer(kb, through_agg=True, through_calls=True)
+                for bb, t in kb.calls():
+                    f_ = t["call"]
+                    if f_.get("local") and len(t["args"]) >= 2 and cfg.dominates(bb, fwd[0][0]) and bb != fwd[0][0]:
+                        recv_self = 1 in trc.root_locals(t["args"][0])
+                        carries_key = any(3 in trc.root_locals(a_) for a_ in t["args"][1:])
+                        if recv_self and carries_key:
+                            good = True
             ctx.check(good, "R5.3", kb.loc(), f"keyvisitor|{m}|records",
                       f"{keyvis}::{m} must store Some(<the visited key>) into the shared key cell before forwarding to the inner visitor's {m}",
                       instance=f"{keyvis.split('::')[-1]}::{m}: key cell := Some(value) dominates forward")
@@ -222,7 +234,7 @@ def run(ctx):
         tb = method_of(c, terminal, "deserialize_ignored_any")
         if tb is not None:
             from .. import inline as _inline
-            tb = _inline.expand(c, tb, depth=2, pred=lambda cb: cb.d.get("vis") != "pub" and cb.id.startswith("conjure_serde::de::unknown_fields_behavior"))
+            tb = _inline.expand(c, tb, depth=3, pred=lambda cb: cb.d.get("vis") != "pub" and cb.id.startswith("conjure_serde::de::unknown_fields_behavior"))
         tadt = ctx.F.adt(terminal) or {}
         troles = {}
         def add_roles(a_, depth=0):
@@ -249,7 +261,7 @@ def run(ctx):
             if len(uf) == 1:
                 bb, t = uf[0]
                 tr = Tracer(tb)
-                ksrc = Tracer(tb, through_calls=True).sources(t["args"][0])
+                ksrc = Tracer(tb, through_calls=True, through_agg=True).sources(t["args"][0])
                 fsrc = tr.sources(t["args"][1])
                 kfields = set()
                 kconst = set()
@@ -260,6 +272,8 @@ def run(ctx):
                         kfields |= set(ch_[-1:]) if ch_ else src_fields(s_)
                     elif r[0] == "const":
                         kconst.add(r)
+                    elif r[0] == "agg" and not tb.blocks[r[1]]["s"][r[2]]["r"].get("ops"):
+                        kconst.add(("unit-variant", r[1], r[2]))      # a field-less variant of a private classification enum
                     elif r[0] == "call" and tb.blocks[r[1]]["t"]["call"]["name"] in ("as_deref", "unwrap_or", "as_ref", "deref", "map", "unwrap_or_else", "as_str", "borrow"):
                         continue   # looked through: its operands are among the sources as well
                     else:
